@@ -246,11 +246,11 @@ fn replay(args: &[String]) {
     );
 }
 
-fn record(c: &Cfg, evs: &[Ev]) -> Value {
-    let chunks = scen::render(evs);
+fn record(c: &Cfg, evs: &[Ev], cut: bool) -> Value {
+    let chunks = scen::render(evs, cut);
     let cfg = sess_cfg(&c.src, c.tin, c.terr, &c.args(), &c.env(), &chunks, &c.rc_text());
     let o = run_session(&cfg);
-    json!({"cfg": c.json(), "es": evs.iter().map(|e| e.json()).collect::<Vec<_>>(), "chunks": chunks,
+    json!({"cfg": c.json(), "es": evs.iter().map(|e| e.json()).collect::<Vec<_>>(), "chunks": chunks, "cut": cut,
            "obs": {"outcome": o.outcome, "panic": o.panic, "stderr": o.stderr, "stdout": o.stdout, "unfed": o.unfed,
                    "ev": events_of(&o)}})
 }
@@ -271,8 +271,8 @@ fn random(args: &[String]) {
                         break;
                     }
                     let mut rng = rand::rngs::StdRng::seed_from_u64(seed.wrapping_mul(1_000_003).wrapping_add(i as u64));
-                    let (c, evs) = scen::random_session(&mut rng);
-                    let r = record(&c, &evs);
+                    let (c, evs, cut) = scen::random_session(&mut rng);
+                    let r = record(&c, &evs, cut);
                     runs.fetch_add(1, Ordering::SeqCst);
                     recs.lock().unwrap().push((i, r.to_string()));
                 }
@@ -300,7 +300,7 @@ fn one(args: &[String]) {
     let v: Value = serde_json::from_str(&text).expect("session json");
     let c = scen::cfg_of(&v["cfg"]);
     let evs = scen::evs_of(&v["es"]);
-    let r = record(&c, &evs);
+    let r = record(&c, &evs, v["cut"].as_bool().unwrap_or(false));
     let mut out = util::open_out(args);
     writeln!(out, "{r}").unwrap();
     out.flush().unwrap();
